@@ -101,7 +101,8 @@ PROPS = {
         ],
         "gen_facts": [],
         "kernels": [("pieces", 20000, 600000)],
-        "searches": [("c19-meta", 300, 12000)],
+        "searches": [("c19-meta", 300, 12000), ("c19-nobundle", 200, 8000)],
+        "binaries": ["hscan"],
         "scope": "internal/linker/linker.go: accurateFinalByteCount vs substituteFinalPaths, breakOutputIntoPieces modelled; metafile JSON assembly reached by the search only",
         "assumptions": [],
     },
